@@ -58,4 +58,15 @@ structure Call where
   arg : CallArg
   deriving DecidableEq, Repr, Inhabited
 
+/-- What a push form does to the slot(s) it was granted. -/
+inductive StoreKind
+  | assign             -- `*p = v`: destroys the old content first
+  | initBranch         -- empty slot: `p.write(v)`; occupied slot: `*p = v`
+  | copyAll            -- bitwise copy of the whole slice (`Copy` items)
+  | cloneAll           -- `clone_from_slice`: assigns a clone to every slot
+  | perSlotInitCopy    -- per slot: write if empty, assign otherwise (`Copy` items)
+  | perSlotInitClone   -- per slot: write a clone if empty, `clone_from` otherwise
+  | other (src : String)
+  deriving DecidableEq, Repr, Inhabited
+
 end MRB
